@@ -1,6 +1,7 @@
 import MxlVerif.Model.C07
 import MxlVerif.Lemmas.C07MainV
 import MxlVerif.Lemmas.C07Witness
+import MxlVerif.Lemmas.C07Expr
 import MxlVerif.Lemmas.C07Free
 namespace Mxl.C07
 
@@ -200,5 +201,40 @@ theorem C07_raises_on_untranslatable (bad : List Name) (c : Content) (L : Lang) 
   genModel_raises bad c L hcc hn hb hdef
 
 example : isValueError (genModel ["d1"] wOk .ts []) = true := by decide +kernel
+
+/-! ### the expression layer: text written by precedence is read back with the same value -/
+
+open Mxl.C07Expr in
+/-- **Printed text has the expression's value — every expression, every environment** (numbers, names, unary minus,
+    `+ - * /`): the tokens a printer writes that parenthesises an operand iff it binds less tightly than its position
+    requires (the policy of sympy's code printers; right operands strictly) are read by a left-associative
+    recursive-descent reader (sums of products of signed atoms; unary minus binds tighter than `*` `/`) as exactly the
+    value of the expression — also when there is none (unknown name, division by zero). -/
+theorem C07_expr_text_value (env : C07Expr.Env) (e : C07Expr.E) : evalToks env e.print = e.eval env :=
+  evalToks_print_eq env e
+
+open Mxl.C07Expr in
+/-- **Printed text is unambiguous**: the reader that builds the tree returns exactly the printed expression -/
+theorem C07_expr_text_unambiguous (e : C07Expr.E) : parseToks e.print = some e :=
+  parseToks_print e
+
+open Mxl.C07Expr in
+/-- the value reader is the tree reader followed by evaluation, on *every* token stream (also ill-formed ones and ones
+    with redundant parentheses, as the Rust printer writes them) -/
+theorem C07_expr_reader_is_parser (env : C07Expr.Env) (ts : List C07Expr.Tok) :
+    evalToks env ts = (parseToks ts).bind (C07Expr.E.eval env) :=
+  evalToks_eq_parse env ts
+
+open Mxl.C07Expr in
+/-- the policy on small trees: `(x + y)*z`, `x - (y - z)`, `x/(y*z)`, `-(x + y)`, `-x*y`, `x*-y`, `x - y - z` -/
+example :
+    (C07Expr.E.mul (.add (.var "x") (.var "y")) (.var "z")).print = [.lp, .id "x", .plus, .id "y", .rp, .star, .id "z"]
+    ∧ (C07Expr.E.sub (.var "x") (.sub (.var "y") (.var "z"))).print = [.id "x", .minus, .lp, .id "y", .minus, .id "z", .rp]
+    ∧ (C07Expr.E.div (.var "x") (.mul (.var "y") (.var "z"))).print = [.id "x", .slash, .lp, .id "y", .star, .id "z", .rp]
+    ∧ (C07Expr.E.neg (.add (.var "x") (.var "y"))).print = [.minus, .lp, .id "x", .plus, .id "y", .rp]
+    ∧ (C07Expr.E.mul (.neg (.var "x")) (.var "y")).print = [.minus, .id "x", .star, .id "y"]
+    ∧ (C07Expr.E.mul (.var "x") (.neg (.var "y"))).print = [.id "x", .star, .minus, .id "y"]
+    ∧ (C07Expr.E.sub (.sub (.var "x") (.var "y")) (.var "z")).print = [.id "x", .minus, .id "y", .minus, .id "z"] := by
+  simp [C07Expr.E.print, C07Expr.pp_def, C07Expr.E.prec]
 
 end Mxl.C07
